@@ -102,7 +102,8 @@ def _scripted_data_loss(params, static, x, condition=None, key=None):
 
     model = eqx.combine(params, static)
     c, w, script = model["c"], model["w"], _script_of(model)
-    tags = jnp.clip(jnp.round(x[:, 0]).astype(jnp.int32), 0, NMAX - 1)
+    col0 = x if x.ndim == 1 else x.reshape(x.shape[0], -1)[:, 0]
+    tags = jnp.clip(jnp.round(col0).astype(jnp.int32), 0, NMAX - 1)
     s = jnp.sum(w[tags])
     idx = jnp.clip(jnp.round(c).astype(jnp.int32), 0, LMAX - 1)
     value = sg(script)[idx] + (s - sg(s))
@@ -276,9 +277,12 @@ def normalise_world(world: dict) -> dict:
 
 def make_dataset(world):
     n, ncols, ccols = world["n"], world["ncols"], world["cond_cols"]
-    x = np.array(
-        [[i + 100 * j for j in range(ncols)] for i in range(n)], dtype=np.float32
-    )
+    if ncols == 0:  # scalar rows: x has shape (n,)
+        x = np.arange(n, dtype=np.float32)
+    else:
+        x = np.array(
+            [[i + 100 * j for j in range(ncols)] for i in range(n)], dtype=np.float32
+        )
     cond = None
     if ccols:
         cond = np.array(
@@ -496,6 +500,8 @@ def row_tags(ev):
     tags, aligned = [], True
     cond = ev["cond"]
     for r, row in enumerate(x):
+        if not isinstance(row, (list, tuple)):
+            row = [row]
         t = [row[j] - 100 * j for j in range(len(row))]
         if any(v != t[0] for v in t) or t[0] != int(t[0]):
             aligned = False
